@@ -291,9 +291,13 @@ def r186_origin(P, u, rep):
 
 # ------------------------------------------------------------------------------ R18.4
 def r184(P, rep):
-    rep.rule('R18.4', 'Token.line_no, the field diagnostics and .loc print, is written only by the physical line count (add_line_numbers) or copied from another token; '
+    rep.rule('R18.4', 'Token.line_no, the field diagnostics and .loc print, is written only by the physical line count (add_line_numbers today; R18.3) or copied from another token; '
              'error_tok/warn_tok pass the token\'s file name, contents, line_no and loc to verror_at, which prints that name and line', floor=4)
     nw = 0
+    from .lib_c18e import stamp_architecture
+    arch, counter_fn = stamp_architecture(P.unit(T))      # the function that stores the physical count (R18.3 decides whether it counts right)
+    if arch not in ('pass', 'running'):
+        counter_fn = None
     for un in P.unit_names:
         u = P.unit(un)
         for fname, fd in u.functions.items():
@@ -316,7 +320,7 @@ def r184(P, rep):
                     continue
                 nw += 1
                 where = '%s:%d' % (un, n.line)
-                if fname == 'add_line_numbers' and un == T and op == '=':
+                if counter_fn is not None and fname == counter_fn and un == T and op == '=':
                     rep.ob('R18.4', '%s:%s:line_no=physical-count' % (un, fname), True, '', where=where)
                     continue
                 r = rhs.strip_all() if rhs is not None else None
